@@ -10,6 +10,7 @@ mod c12;
 mod c13;
 mod c14;
 mod c15;
+mod c16t;
 mod c18;
 mod probes;
 mod c19;
@@ -32,6 +33,7 @@ fn main() {
         "c12" => c12::run(&args),
         "c13" => c13::run(&args),
         "c15" => c15::run(&args),
+        "c16t" => c16t::run(&args),
         "c14" | "c03-maps" => c14::run(&args.sub, &args),
         "c19" => c19::run(&args),
         other => {
